@@ -3,6 +3,630 @@ From Coq Require Import List Bool ZArith NArith Arith Lia.
 Import ListNotations.
 From Gnmi Require Import Manager.ManagerModel Manager.ManagerCheck.
 
-Lemma unknown_remove_refused_step c s :
-  managed s = false -> vis c s (ERemoveReturned true) = [].
-Proof. unfold managed; destruct s as [p ? ? ? ? ? ? ?]; destruct p; cbn; congruence. Qed.
+(** * Generic facts about runs *)
+
+Lemma run_app c s tr1 s1 tr2 s2 :
+  run c s tr1 s1 -> run c s1 tr2 s2 -> run c s (tr1 ++ tr2) s2.
+Proof.
+  induction 1; intros H2; cbn; auto.
+  - eapply run_tau; eauto.
+  - eapply run_vis; eauto.
+Qed.
+
+Lemma run_tau1 c s s' : In s' (tau c s) -> run c s [] s'.
+Proof. intros H. eapply run_tau; eauto. constructor. Qed.
+
+Lemma run_vis1 c s e s' : In s' (vis c s e) -> run c s [e] s'.
+Proof. intros H. eapply run_vis; eauto. constructor. Qed.
+
+(** ** Projection of steps on control points *)
+
+Definition tpc (c : cfg) (p : pc) : list pc :=
+  match p with
+  | PLoop => [PFinished; PMeta]
+  | PMeta => [PConnCheck (c_hops c)]
+  | PConnCheck O => [PCE]
+  | PConnCheck (S l) => [PCE; PDial l]
+  | PSubCheck => [PDone; POpen]
+  | PDeliver MErrResp | PDeliver MNil => [PRecv true]
+  | _ => []
+  end.
+
+Definition vpc (c : cfg) (p : pc) (e : event) : list pc :=
+  match e with
+  | EAddCalled => match p with PIdle => [PLoop] | _ => [p] end
+  | EAdd _ | EReconnectCalled | EReconnectReturned true | ERemoveCalled => [p]
+  | EReconnectReturned false | ERemoveReturned false =>
+      match p with PIdle => [p] | _ => [] end
+  | ERemoveReturned true => match p with PFinished => [PIdle] | _ => [] end
+  | EHang | EStall => []
+  | ECred ok => match p with PMeta => [if ok then PConnCheck (c_hops c) else PCE] | _ => [] end
+  | EDial ok => match p with PDial l => [if ok then PSubCheck else PConnCheck l] | _ => [] end
+  | EOpen ok => match p with POpen => [if ok then PSend else PDone] | _ => [] end
+  | ESend ok => match p with PSend => [if ok then PRecv false else PDone] | _ => [] end
+  | ERecv r =>
+      match p with
+      | PRecv conn =>
+          match r with
+          | RMsg m => [if conn then PDeliver m else PConnect m]
+          | _ => [PReset]
+          end
+      | _ => []
+      end
+  | CConnect => match p with PConnect m => [PDeliver m] | _ => [] end
+  | CUpdate n => match p with PDeliver (MUpdate k) => if Z.eqb n k then [PRecv true] else [] | _ => [] end
+  | CSync => match p with PDeliver MSync => [PRecv true] | _ => [] end
+  | CReset => match p with PReset => [PDone] | _ => [] end
+  | EDone => match p with PDone => [PCE] | _ => [] end
+  | CConnErr => match p with PCE => [PME] | _ => [] end
+  | CMonErr => match p with PME => [PLoop] | _ => [] end
+  end.
+
+Ltac inv_in H :=
+  repeat match type of H with
+         | In _ (_ ++ _) => apply in_app_or in H; destruct H as [H|H]
+         | In _ [] => destruct H
+         | In _ (_ :: _) => destruct H as [H|H]
+         | _ \/ _ => destruct H as [H|H]
+         | False => destruct H
+         | In _ (if ?b then _ else _) => destruct b eqn:?
+         | In _ (match ?x with _ => _ end) => destruct x eqn:?
+         end.
+
+Lemma tau_pc c s s' : In s' (tau c s) -> s_pc s' = s_pc s \/ In (s_pc s') (tpc c (s_pc s)).
+Proof.
+  unfold tau. intros H.
+  apply in_app_or in H; destruct H as [H|H].
+  { destruct (s_rmc s && negb (s_cdone s)); inv_in H; subst; auto. }
+  apply in_app_or in H; destruct H as [H|H].
+  { destruct (s_rc s); inv_in H; subst; auto. }
+  apply in_app_or in H; destruct H as [H|H].
+  { destruct (c_timeout c && s_hu s && managed s && negb (s_sdone s)); inv_in H; subst; auto. }
+  apply in_app_or in H; destruct H as [H|H].
+  { destruct (stale_reconnect_by_name && managed s && negb (s_sdone s)); [|destruct H].
+    apply in_app_or in H; destruct H as [H|H].
+    - destruct (s_stale s); inv_in H; subst; auto.
+    - destruct (c_timeout c && s_phu s); inv_in H; subst; auto. }
+  right. destruct (s_pc s) as [ | | |n|l| | | |b|m|m| | | | | ]; cbn in *; inv_in H; subst; cbn; auto.
+Qed.
+
+Lemma vis_pc c s e s' : In s' (vis c s e) -> In (s_pc s') (vpc c (s_pc s) e).
+Proof.
+  destruct s as [p rmc cd sd rc hu stl phu ad]. unfold vis, managed; cbn [s_pc s_rmc s_cdone s_sdone s_rc s_hu s_stale s_phu s_add].
+  intros H.
+  destruct e as [ |ok| |ok| |ok| | |ok|ok| |ok|ok|r| |n| | | | ]; cbn in H |- *;
+    inv_in H; subst; cbn; auto.
+  all: destruct p; cbn in *; auto; discriminate.
+Qed.
+
+(** * Generic simulation of the model by a deterministic monitor *)
+
+Section Monitor.
+  Context {X : Type}.
+  Variable xstep : X -> event -> option X.
+
+  Fixpoint orun (x : X) (tr : list event) : option X :=
+    match tr with
+    | [] => Some x
+    | e :: tr' => match xstep x e with Some x' => orun x' tr' | None => None end
+    end.
+
+  Lemma orun_app x tr1 tr2 :
+    orun x (tr1 ++ tr2) = match orun x tr1 with Some x' => orun x' tr2 | None => None end.
+  Proof.
+    revert x; induction tr1 as [|e tr1 IH]; intros x; cbn; auto.
+    destruct (xstep x e); auto.
+  Qed.
+
+  Variable R : pc -> X -> Prop.
+  Variable c : cfg.
+  Hypothesis Htau : forall p p' x, In p' (tpc c p) -> R p x -> R p' x.
+  Hypothesis Hvis : forall p e p' x, In p' (vpc c p e) -> R p x ->
+                                     exists x', xstep x e = Some x' /\ R p' x'.
+
+  Lemma simulation s tr s' :
+    run c s tr s' -> forall x, R (s_pc s) x -> exists x', orun x tr = Some x' /\ R (s_pc s') x'.
+  Proof.
+    induction 1 as [s|s s1 tr s2 Hin Hrun IH|s e s1 tr s2 Hin Hrun IH]; intros x HR.
+    - exists x; auto.
+    - apply IH. apply tau_pc in Hin. destruct Hin as [->|Hin]; eauto.
+    - apply vis_pc in Hin. destruct (Hvis _ _ _ _ Hin HR) as (x1 & Hs & HR1).
+      destruct (IH _ HR1) as (x' & Hr & HR'). exists x'. cbn. rewrite Hs. auto.
+  Qed.
+End Monitor.
+
+(** * K1: session language *)
+
+Definition dstep_all (d : dst) (e : event) : option dst :=
+  if is_callback e then dstep d e else Some d.
+
+Lemma drun_orun d tr : drun d (callbacks tr) = orun dstep_all d tr.
+Proof.
+  revert d; induction tr as [|e tr IH]; intros d; cbn; auto.
+  unfold dstep_all at 1. destruct (is_callback e) eqn:E; cbn; auto.
+  destruct (dstep d e); auto.
+Qed.
+
+(** which DFA states a control point can be in *)
+Definition Rlang (p : pc) (d : dst) : Prop :=
+  match p with
+  | PRecv true | PDeliver _ => d = DConn
+  | PReset => d = D0 \/ d = DConn
+  | PDone | PCE => d = D0 \/ d = DReset
+  | PME => d = DCE
+  | _ => d = D0
+  end.
+
+Lemma Rlang_tau c p p' d : In p' (tpc c p) -> Rlang p d -> Rlang p' d.
+Proof.
+  destruct p as [ | | |n|l| | | |b|m|m| | | | | ]; cbn; intros H; inv_in H; subst; cbn; auto;
+    try (intros ->; auto).
+Qed.
+
+Lemma Rlang_vis c p e p' d :
+  In p' (vpc c p e) -> Rlang p d -> exists d', dstep_all d e = Some d' /\ Rlang p' d'.
+Proof.
+  unfold dstep_all.
+  destruct e as [ |ok| |ok| |ok| | |ok|ok| |ok|ok|r| |n| | | | ]; cbn; intros H HR;
+    inv_in H; subst; cbn in *;
+    repeat match goal with
+           | H : _ \/ _ |- _ => destruct H
+           | b : bool |- _ => destruct b
+           end; subst; cbn; eauto.
+Qed.
+
+Lemma model_in_language c s tr s' d :
+  run c s tr s' -> Rlang (s_pc s) d ->
+  exists d', drun d (callbacks tr) = Some d' /\ Rlang (s_pc s') d'.
+Proof.
+  intros Hrun HR. rewrite drun_orun.
+  eapply (simulation dstep_all Rlang c (Rlang_tau c) (Rlang_vis c)); eauto.
+Qed.
+
+(** every log the model can produce projects on a prefix of the session
+    language, and on a word of it whenever the goroutine is between attempts
+    (in particular when the name is not managed any more) *)
+Lemma trace_in_language c tr s :
+  run c init tr s -> exists d, drun D0 (callbacks tr) = Some d /\ Rlang (s_pc s) d.
+Proof. intros H. eapply model_in_language; eauto. reflexivity. Qed.
+
+Definition quiescent (p : pc) : bool :=
+  match p with PIdle | PLoop | PFinished => true | _ => false end.
+
+Lemma complete_sessions c tr s :
+  run c init tr s -> quiescent (s_pc s) = true -> k_lang tr = true.
+Proof.
+  intros H Hq. destruct (trace_in_language _ _ _ H) as (d & Hd & HR).
+  unfold k_lang. rewrite Hd. destruct (s_pc s); cbn in *; try discriminate; subst; auto.
+Qed.
+
+(** declarative reading of K1 *)
+Definition is_data (e : event) : Prop :=
+  match e with CUpdate _ | CSync => True | _ => False end.
+
+Inductive sessions : list event -> Prop :=
+| sess_nil : sessions []
+| sess_fail w : sessions w -> sessions (CConnErr :: CMonErr :: w)
+| sess_early w : sessions w -> sessions (CReset :: CConnErr :: CMonErr :: w)
+| sess_full body w :
+    Forall is_data body -> sessions w ->
+    sessions (CConnect :: body ++ CReset :: CConnErr :: CMonErr :: w).
+
+Lemma drun_conn_split w d :
+  drun DConn w = Some d -> d = D0 ->
+  exists body rest, w = body ++ CReset :: CConnErr :: CMonErr :: rest /\ Forall is_data body
+                    /\ drun D0 rest = Some D0.
+Proof.
+  induction w as [|e w IH]; cbn; intros H Hd; [congruence|].
+  destruct e; cbn in H; try discriminate.
+  - destruct (IH H Hd) as (b & r & -> & Hf & Hr). exists (CUpdate n :: b), r. cbn. repeat split; auto.
+    constructor; cbn; auto.
+  - destruct (IH H Hd) as (b & r & -> & Hf & Hr). exists (CSync :: b), r. cbn. repeat split; auto.
+    constructor; cbn; auto.
+  - destruct w as [|e1 w]; cbn in H; [congruence|]. destruct e1; cbn in H; try discriminate.
+    destruct w as [|e2 w]; cbn in H; [congruence|]. destruct e2; cbn in H; try discriminate.
+    exists [], w. cbn. subst. auto.
+Qed.
+
+Lemma sessions_of_drun n : forall w, length w <= n -> drun D0 w = Some D0 -> sessions w.
+Proof.
+  induction n as [|n IH]; intros w Hl H.
+  - destruct w; [constructor|cbn in Hl; lia].
+  - destruct w as [|e w]; [constructor|]. cbn in Hl.
+    destruct e; cbn in H; try discriminate.
+    + (* Connect *)
+      destruct (drun_conn_split _ _ H eq_refl) as (b & r & -> & Hf & Hr).
+      apply sess_full; auto. apply IH; auto. rewrite app_length in Hl. cbn in Hl. lia.
+    + (* Reset *)
+      destruct w as [|e1 w]; cbn in H; [congruence|]. destruct e1; cbn in H; try discriminate.
+      destruct w as [|e2 w]; cbn in H; [congruence|]. destruct e2; cbn in H; try discriminate.
+      apply sess_early. apply IH; auto. cbn in Hl. lia.
+    + (* CE *)
+      destruct w as [|e1 w]; cbn in H; [congruence|]. destruct e1; cbn in H; try discriminate.
+      apply sess_fail. apply IH; auto. cbn in Hl. lia.
+Qed.
+
+Lemma k_lang_sound tr : k_lang tr = true -> sessions (callbacks tr).
+Proof.
+  unfold k_lang. destruct (drun D0 (callbacks tr)) as [[]|] eqn:E; try discriminate.
+  intros _. eapply sessions_of_drun; eauto.
+Qed.
+
+Lemma model_sessions c tr s :
+  run c init tr s -> quiescent (s_pc s) = true -> sessions (callbacks tr).
+Proof. intros. apply k_lang_sound. eapply complete_sessions; eauto. Qed.
+
+(** * K2: stream monitor *)
+
+Lemma mrun_orun m tr : mrun m tr = orun mstep m tr.
+Proof. revert m; induction tr as [|e tr IH]; intros m; cbn; [reflexivity|]. destruct (mstep m e); auto. Qed.
+
+Definition Rstream (p : pc) (m : mst) : Prop :=
+  match p with
+  | PRecv conn => m = MIn conn
+  | PConnect x => m = MWant (CConnect :: deliver x) (MIn true)
+  | PDeliver x => m = want (deliver x) (MIn true)
+  | PReset => m = MWant [CReset] MOut
+  | _ => m = MOut
+  end.
+
+Lemma Rstream_tau c p p' m : In p' (tpc c p) -> Rstream p m -> Rstream p' m.
+Proof.
+  destruct p as [ | | |n|l| | | |b|x|x| | | | | ]; cbn; intros H; inv_in H; subst; cbn; auto.
+Qed.
+
+Lemma Rstream_vis c p e p' m :
+  In p' (vpc c p e) -> Rstream p m -> exists m', mstep m e = Some m' /\ Rstream p' m'.
+Proof.
+  destruct e as [ |ok| |ok| |ok| | |ok|ok| |ok|ok|r| |n| | | | ]; cbn; intros H HR;
+    inv_in H; subst; cbn in *; subst; cbn;
+    repeat match goal with
+           | b : bool |- _ => destruct b
+           | x : msg |- _ => destruct x
+           end; cbn; eauto.
+  (* CUpdate: the delivered timestamp is the received one *)
+  all: try (rewrite Z.eqb_sym; match goal with H : (_ =? _)%Z = true |- _ => rewrite H end; cbn; eauto).
+Qed.
+
+Lemma model_stream_discipline c tr s :
+  run c init tr s -> exists m, mrun MOut tr = Some m /\ Rstream (s_pc s) m.
+Proof.
+  intros H. rewrite mrun_orun.
+  eapply (simulation mstep Rstream c (Rstream_tau c) (Rstream_vis c)); eauto. reflexivity.
+Qed.
+
+Lemma model_k_stream c tr s :
+  run c init tr s -> quiescent (s_pc s) = true -> k_stream tr = true.
+Proof.
+  intros H Hq. destruct (model_stream_discipline _ _ _ H) as (m & Hm & HR).
+  unfold k_stream. rewrite Hm. destruct (s_pc s); cbn in *; try discriminate; subst; auto.
+Qed.
+
+(** * K3: silence *)
+
+Definition sstep (man : bool) (e : event) : option bool :=
+  match e with
+  | EAddCalled => Some true
+  | ERemoveReturned true => Some false
+  | _ => if is_marker e || man then Some man else None
+  end.
+
+Lemma k_silence_orun man tr : k_silence man tr = true <-> orun sstep man tr <> None.
+Proof.
+  revert man; induction tr as [|e tr IH]; intros man; cbn; [split; congruence|].
+  destruct e as [ |ok| |ok| |ok| | |ok|ok| |ok|ok|r| |n| | | | ]; cbn; try apply IH;
+    try (destruct ok; cbn; apply IH);
+    destruct man; cbn; try apply IH; split; congruence.
+Qed.
+
+Definition Rsil (p : pc) (man : bool) : Prop :=
+  man = match p with PIdle => false | _ => true end.
+
+Lemma Rsil_tau c p p' m : In p' (tpc c p) -> Rsil p m -> Rsil p' m.
+Proof.
+  unfold Rsil.
+  destruct p as [ | | |n|l| | | |b|x|x| | | | | ]; cbn; intros H; inv_in H; subst; cbn; auto.
+Qed.
+
+Lemma Rsil_vis c p e p' m :
+  In p' (vpc c p e) -> Rsil p m -> exists m', sstep m e = Some m' /\ Rsil p' m'.
+Proof.
+  unfold Rsil.
+  destruct e as [ |ok| |ok| |ok| | |ok|ok| |ok|ok|r| |n| | | | ]; cbn; intros H HR;
+    inv_in H; subst; cbn in *; eauto;
+    repeat match goal with b : bool |- _ => destruct b end; cbn; eauto.
+  all: destruct p; cbn; eauto.
+Qed.
+
+Lemma model_silence c tr s : run c init tr s -> k_silence false tr = true.
+Proof.
+  intros H. apply k_silence_orun.
+  destruct (simulation sstep Rsil c (Rsil_tau c) (Rsil_vis c) _ _ _ H false eq_refl) as (m & Hm & _).
+  congruence.
+Qed.
+
+(** declarative reading of K3: a goroutine letter that follows a successful
+    Remove is preceded by a later call of Add *)
+Lemma k_silence_gen tr : forall man,
+  k_silence man tr = true ->
+  forall a e b, tr = a ++ e :: b -> is_gor e = true -> man = true \/ In EAddCalled a.
+Proof.
+  induction tr as [|x tr IH]; intros man H a e b Heq Hg.
+  - destruct a; discriminate.
+  - destruct a as [|y a]; cbn in Heq; inversion Heq; subst; clear Heq.
+    + unfold is_gor in Hg. destruct man; auto.
+      destruct e; cbn in *; discriminate.
+    + destruct y; cbn in H;
+        try (apply andb_true_iff in H; destruct H as [_ H]);
+        try (destruct (IH _ H _ _ _ eq_refl Hg); [auto|right; right; auto]; fail).
+      * right; left; auto.
+      * destruct ok.
+        -- destruct (IH _ H _ _ _ eq_refl Hg); [discriminate|right; right; auto].
+        -- try (apply andb_true_iff in H; destruct H as [_ H]).
+           destruct (IH _ H _ _ _ eq_refl Hg); [auto|right; right; auto].
+Qed.
+
+Lemma k_silence_false_spec tr :
+  k_silence false tr = true ->
+  forall a e b, tr = a ++ e :: b -> is_gor e = true -> In EAddCalled a.
+Proof.
+  intros H a e b Heq Hg. destruct (k_silence_gen _ _ H _ _ _ Heq Hg); [discriminate|auto].
+Qed.
+
+Lemma k_silence_sound tr :
+  k_silence false tr = true ->
+  forall a b e b', tr = a ++ ERemoveReturned true :: b ++ e :: b' -> is_gor e = true ->
+                   In EAddCalled b.
+Proof.
+  revert tr. 
+  assert (G : forall tr man, k_silence man tr = true ->
+              forall a b, tr = a ++ ERemoveReturned true :: b -> k_silence false b = true).
+  { induction tr as [|x tr IH]; intros man H a b Heq.
+    - destruct a; discriminate.
+    - destruct a as [|y a]; cbn in Heq; inversion Heq; subst; clear Heq.
+      + cbn in H. auto.
+      + cbn in H.
+        destruct y; try (apply andb_true_iff in H; destruct H as [_ H]); try (eapply IH; eauto; fail).
+        destruct ok; [eapply IH; eauto|]. apply andb_true_iff in H; destruct H as [_ H]. eapply IH; eauto. }
+  intros tr H a b e b' Heq Hg.
+  specialize (G _ _ H _ _ Heq). eapply (k_silence_false_spec _ G b e b'); eauto.
+Qed.
+
+(** * Soundness of the executable acceptance function (mode A) *)
+
+Lemma add_all_in new : forall acc s, In s (add_all new acc) -> In s new \/ In s acc.
+Proof.
+  induction new as [|x new IH]; intros acc s H; cbn [add_all] in H; auto.
+  destruct (mem x acc).
+  - destruct (IH _ _ H); auto. left; right; auto.
+  - destruct (IH _ _ H) as [H1|H1]; [left; right; auto|].
+    apply in_app_or in H1. destruct H1 as [H1|[H1|[]]]; auto. subst; left; left; auto.
+Qed.
+
+Lemma closure_sound c f : forall l s', In s' (closure c f l) -> exists s, In s l /\ run c s [] s'.
+Proof.
+  induction f as [|f IH]; intros l s' H; cbn [closure] in H.
+  - exists s'; split; auto. constructor.
+  - destruct (Nat.eqb _ _).
+    + exists s'; split; auto. constructor.
+    + destruct (IH _ _ H) as (s1 & Hin & Hrun).
+      apply add_all_in in Hin. destruct Hin as [Hin|Hin].
+      * apply in_flat_map in Hin. destruct Hin as (s & Hs & Ht).
+        exists s; split; auto. eapply run_tau; eauto.
+      * exists s1; auto.
+Qed.
+
+Lemma step_set_sound c l e s' :
+  In s' (step_set c l e) -> exists s, In s l /\ run c s [e] s'.
+Proof.
+  unfold step_set. intros H. apply closure_sound in H. destruct H as (s1 & Hin & Hrun).
+  apply add_all_in in Hin. destruct Hin as [Hin|[]].
+  apply in_flat_map in Hin. destruct Hin as (s & Hs & Hv).
+  exists s; split; auto. eapply run_vis; eauto.
+Qed.
+
+Lemma run_set_sound c tr : forall l s', In s' (run_set c l tr) -> exists s, In s l /\ run c s tr s'.
+Proof.
+  induction tr as [|e tr IH]; intros l s' H; cbn [run_set] in H.
+  - exists s'; split; auto. constructor.
+  - destruct (IH _ _ H) as (s1 & Hin & Hrun).
+    apply step_set_sound in Hin. destruct Hin as (s & Hs & Hr).
+    exists s; split; auto. change (e :: tr) with ([e] ++ tr). eapply run_app; eauto.
+Qed.
+
+Lemma accepts_sound c tr :
+  accepts c tr = true -> exists s, run c init tr s /\ final s = true.
+Proof.
+  unfold accepts, reach_set. intros H. apply existsb_exists in H. destruct H as (s' & Hin & Hf).
+  apply run_set_sound in Hin. destruct Hin as (s1 & Hin & Hrun).
+  apply closure_sound in Hin. destruct Hin as (s0 & [<-|[]] & Hr0).
+  exists s'; split; auto. change tr with ([] ++ tr). eapply run_app; eauto.
+Qed.
+
+Lemma final_quiescent s : final s = true -> quiescent (s_pc s) = true.
+Proof. unfold final. destruct (s_pc s); auto; discriminate. Qed.
+
+(** what acceptance of a log by the model implies for the log itself *)
+Lemma accepts_spec c tr :
+  accepts c tr = true ->
+  emits c tr /\ sessions (callbacks tr) /\ k_stream tr = true /\ k_silence false tr = true.
+Proof.
+  intros H. destruct (accepts_sound _ _ H) as (s & Hrun & Hf). apply final_quiescent in Hf.
+  repeat split.
+  - exists s; auto.
+  - eapply model_sessions; eauto.
+  - eapply model_k_stream; eauto.
+  - eapply model_silence; eauto.
+Qed.
+
+(** * K4: refusals (needs the flags, not only the control point) *)
+
+Section MonitorSt.
+  Context {X : Type}.
+  Variable xstep : X -> event -> option X.
+  Variable R : st -> X -> Prop.
+  Variable c : cfg.
+  Hypothesis Htau : forall s s' x, In s' (tau c s) -> R s x -> R s' x.
+  Hypothesis Hvis : forall s e s' x, In s' (vis c s e) -> R s x ->
+                                     exists x', xstep x e = Some x' /\ R s' x'.
+  Lemma simulation_st s tr s' :
+    run c s tr s' -> forall x, R s x -> exists x', orun xstep x tr = Some x' /\ R s' x'.
+  Proof.
+    induction 1 as [s|s s1 tr s2 Hin Hrun IH|s e s1 tr s2 Hin Hrun IH]; intros x HR.
+    - exists x; auto.
+    - apply IH. eauto.
+    - destruct (Hvis _ _ _ _ Hin HR) as (x1 & Hs & HR1).
+      destruct (IH _ HR1) as (x' & Hr & HR'). exists x'. cbn. rewrite Hs. auto.
+  Qed.
+End MonitorSt.
+
+Definition rstep (man : bool) (e : event) : option bool :=
+  match e with
+  | EAdd ok => if Bool.eqb ok (negb man) then Some (man || ok) else None
+  | ERemoveReturned ok => if Bool.eqb ok man then Some false else None
+  | EReconnectReturned ok => if Bool.eqb ok man then Some man else None
+  | _ => Some man
+  end.
+
+Lemma k_refuse_orun man tr : k_refuse man tr = true <-> orun rstep man tr <> None.
+Proof.
+  revert man; induction tr as [|e tr IH]; intros man; cbn; [split; congruence|].
+  destruct e; cbn; try apply IH.
+  all: destruct (Bool.eqb ok _); cbn; [apply IH|split; congruence].
+Qed.
+
+Definition add_none (s : st) : bool := match s_add s with AddNone => true | _ => false end.
+Definition rc_none (s : st) : bool := match s_rc s with RcNone => true | _ => false end.
+
+(** calls for one name do not overlap; flags are only set while managed *)
+Definition wfb (s : st) : bool :=
+  implb (s_rmc s) (managed s && add_none s && rc_none s)
+  && implb (negb (rc_none s)) (managed s && add_none s)
+  && implb (negb (add_none s)) (managed s)
+  && implb (s_cdone s) (s_rmc s)
+  && implb (match s_pc s with PFinished => true | _ => false end) (s_cdone s).
+
+(** managed from the caller's point of view: Add has returned *)
+Definition manb (s : st) : bool :=
+  managed s && negb (match s_add s with AddFresh => true | _ => false end).
+
+Ltac crush_flags :=
+  repeat match goal with
+         | |- context [match ?x with _ => _ end] => destruct x eqn:?; cbn in *; try discriminate
+         | |- context [if ?x then _ else _] => destruct x eqn:?; cbn in *; try discriminate
+         end.
+
+Lemma wf_tau c s s' : In s' (tau c s) -> wfb s = true -> wfb s' = true /\ manb s' = manb s.
+Proof.
+  destruct s as [p rmc cd sd rc hu stl phu ad]. unfold tau, wfb, manb, managed, add_none, rc_none.
+  cbn [s_pc s_rmc s_cdone s_sdone s_rc s_hu s_stale s_phu s_add].
+  intros H W. inv_in H; subst; cbn in *; try discriminate; auto.
+  all: try (destruct rmc, cd, rc, ad; cbn in *; try discriminate; auto; fail).
+  all: try (destruct p; cbn in *; try discriminate; destruct rmc, cd, rc, ad; cbn in *; try discriminate; auto; fail).
+Qed.
+
+Lemma wf_vis c s e s' :
+  In s' (vis c s e) -> wfb s = true -> wfb s' = true /\ rstep (manb s) e = Some (manb s').
+Proof.
+  destruct s as [p rmc cd sd rc hu stl phu ad]. unfold vis, wfb, manb, managed, add_none, rc_none.
+  cbn [s_pc s_rmc s_cdone s_sdone s_rc s_hu s_stale s_phu s_add].
+  intros H W.
+  destruct e as [ |ok| |ok| |ok| | |ok|ok| |ok|ok|r| |n| | | | ]; cbn in H |- *;
+    inv_in H; subst; cbn in *; try discriminate; auto.
+  all: try (destruct rmc, cd, rc, ad; cbn in *; try discriminate; auto; fail).
+  all: try (destruct p; cbn in *; try discriminate; destruct rmc, cd, rc, ad; cbn in *; try discriminate; auto; fail).
+  all: repeat match goal with
+              | b : bool |- _ => destruct b
+              | b : rcst |- _ => destruct b
+              | b : addst |- _ => destruct b
+              end; cbn in *; try discriminate; auto.
+  all: destruct p; cbn in *; try discriminate; auto.
+Qed.
+
+Definition Rref (s : st) (man : bool) : Prop := wfb s = true /\ man = manb s.
+
+Lemma model_refusals_gen c s tr s' :
+  run c s tr s' -> wfb s = true ->
+  exists man', orun rstep (manb s) tr = Some man' /\ wfb s' = true /\ man' = manb s'.
+Proof.
+  intros Hrun W.
+  destruct (simulation_st rstep Rref c) with (s := s) (tr := tr) (s' := s') (x := manb s)
+    as (x' & Hx & HR); auto.
+  - intros s0 s1 x Hin [W0 ->]. destruct (wf_tau _ _ _ Hin W0) as [W1 E]. split; auto.
+  - intros s0 e s1 x Hin [W0 ->]. destruct (wf_vis _ _ _ _ Hin W0) as [W1 E].
+    exists (manb s1). split; auto. split; auto.
+  - split; auto.
+  - destruct HR as [W' E]. exists x'; auto.
+Qed.
+
+Lemma model_refusals c tr s : run c init tr s -> k_refuse false tr = true.
+Proof.
+  intros H. apply k_refuse_orun.
+  destruct (model_refusals_gen _ _ _ _ H eq_refl) as (m & Hm & _). cbn in Hm. congruence.
+Qed.
+
+Lemma reachable_wf c tr s : run c init tr s -> wfb s = true.
+Proof. intros H. destruct (model_refusals_gen _ _ _ _ H eq_refl) as (m & _ & W & _). auto. Qed.
+
+(** declarative readings of K4 *)
+Fixpoint no_remove_ok (tr : list event) : bool :=
+  match tr with
+  | [] => true
+  | ERemoveReturned true :: _ => false
+  | _ :: tr' => no_remove_ok tr'
+  end.
+
+Fixpoint no_add_ok (tr : list event) : bool :=
+  match tr with
+  | [] => true
+  | EAdd true :: _ => false
+  | _ :: tr' => no_add_ok tr'
+  end.
+
+Lemma k_refuse_stays_managed m : forall ok,
+  no_remove_ok m = true -> k_refuse true (m ++ [EAdd ok]) = true -> ok = false.
+Proof.
+  induction m as [|e m IH]; intros ok Hn H.
+  - cbn in H. destruct ok; auto; discriminate.
+  - destruct e; cbn in Hn, H; try (eapply IH; eauto; fail).
+    + destruct ok0; cbn in H; [discriminate|]. eapply IH; eauto.
+    + apply andb_true_iff in H. destruct H as [_ H]. eapply IH; eauto.
+    + destruct ok0; cbn in *; discriminate.
+Qed.
+
+Lemma k_refuse_suffix a : forall man b,
+  k_refuse man (a ++ b) = true -> exists man', k_refuse man' b = true.
+Proof.
+  induction a as [|e a IH]; intros man b H; cbn in H; eauto.
+  destruct e; try (eapply IH; eauto; fail); apply andb_true_iff in H; destruct H as [_ H]; eauto.
+Qed.
+
+Lemma duplicate_add_refused_k a m ok :
+  k_refuse false (a ++ EAdd true :: m ++ [EAdd ok]) = true -> no_remove_ok m = true -> ok = false.
+Proof.
+  intros H Hn. apply k_refuse_suffix in H. destruct H as (man & H).
+  cbn in H. apply andb_true_iff in H. destruct H as [_ H].
+  rewrite orb_true_r in H. eapply k_refuse_stays_managed; eauto.
+Qed.
+
+Lemma k_refuse_stays_unmanaged m : forall ok,
+  no_add_ok m = true -> k_refuse false (m ++ [ERemoveReturned ok]) = true -> ok = false.
+Proof.
+  induction m as [|e m IH]; intros ok Hn H.
+  - cbn in H. destruct ok; auto; discriminate.
+  - destruct e; cbn in Hn, H; try (eapply IH; eauto; fail).
+    all: destruct ok0; cbn in *; try discriminate; eapply IH; eauto.
+Qed.
+
+Lemma unknown_remove_refused_first m ok :
+  k_refuse false (m ++ [ERemoveReturned ok]) = true -> no_add_ok m = true -> ok = false.
+Proof. intros; eapply k_refuse_stays_unmanaged; eauto. Qed.
+
+Lemma unknown_remove_refused_k a m ok ok0 :
+  k_refuse false (a ++ ERemoveReturned ok0 :: m ++ [ERemoveReturned ok]) = true ->
+  no_add_ok m = true -> ok = false.
+Proof.
+  intros H Hn. apply k_refuse_suffix in H. destruct H as (man & H).
+  cbn in H. apply andb_true_iff in H. destruct H as [_ H].
+  eapply k_refuse_stays_unmanaged; eauto.
+Qed.
